@@ -35,7 +35,8 @@ CONSTANTS
     Rewrite,    \* "asis" | "none" (sensitivity: target stored as sent)
     Fuel,       \* symlink expansions per walk before ELOOP
     EmitEsc,    \* TRUE: print the request history of every escaping transition
-    Bias        \* "all" | "ok": (simulation) only requests that succeed or escape
+    Bias,       \* "all" | "ok": (simulation) only requests that succeed or escape
+    RandK       \* (simulation, SimSpec) random candidate requests per step
 
 AllOps == {"open_r", "open_w", "stat", "lstat", "mkdir", "rmdir", "remove",
            "rename", "posix_rename", "symlink", "link", "readlink",
@@ -245,6 +246,17 @@ Next ==
        \/ "symlink" \in Ops /\ \E p \in Targets, q \in ReqPaths : Step("symlink", p, q)
 
 Spec == Init /\ [][Next]_vars
+
+(* Generator for -simulate: instead of enumerating every request at every  *)
+(* step, draw RandK random requests (same Step relation).                  *)
+RandNext ==
+    /\ n < MaxReq /\ ~esc
+    /\ \E i \in 1..RandK :
+         \E op \in {RandomElement(Ops)} :
+         \E p \in {RandomElement(IF op = "symlink" THEN Targets ELSE ReqPaths)} :
+         \E q \in {RandomElement(ReqPaths)} :
+            Step(op, p, IF op \in TwoPath \cup {"symlink"} THEN q ELSE <<"">>)
+SimSpec == Init /\ [][RandNext]_vars
 
 -----------------------------------------------------------------------------
 (* C13, first sentence *)
